@@ -5,11 +5,11 @@ Obs == ndJsonDeserialize(ObsFile)
 Rng(q) == {q[i] : i \in DOMAIN q}
 HelperWraps(chain) == Len(chain) > 0 /\ chain[Len(chain)] = "V"
 Finger(r) ==
-  LET w == [pc |-> r.pc, p1 |-> r.p1, p2 |-> r.p2] IN
+  LET w == [kind |-> r.kind, pc |-> r.pc, p1 |-> r.p1, p2 |-> r.p2] IN
   IF r.gen = "panic" THEN {<<"C13", "generator-panic", r.why, r.id>>}
   ELSE IF r.gen # "ok" THEN {<<"C12", "valid-rejected", "wrapErrors-witness", r.id>>}
   ELSE IF ~r.compiles THEN {<<"C01", "does-not-compile", "witness", r.id>>}
-  ELSE (IF r.chain1 # ExpectM1(w) THEN {<<"C12", IF HelperWraps(r.chain1) # EffConvW(w) THEN "generated-method-not-using-converter-setting" ELSE "precedence", "wrapErrors-effect-M1", r.id>>} ELSE {})
+  ELSE (IF r.chain1 # ExpectM1(w) THEN {<<"C12", IF w.kind = "helper" /\ HelperWraps(r.chain1) # EffConvW(w) THEN "generated-method-not-using-converter-setting" ELSE "precedence", "wrapErrors-effect-M1", r.id>>} ELSE {})
        \cup (IF r.chain2 # ExpectM2(w) THEN {<<"C12", "sibling", "wrapErrors-effect-M2", r.id>>} ELSE {})
        \cup (IF ("fmt" \in Rng(r.imports)) # NeedsFmt(w) THEN {<<"C18", "imports-differ-from-needed", IF NeedsFmt(w) THEN "fmt-needed" ELSE "fmt-not-needed", r.id>>} ELSE {})
 VARIABLES l, bad
